@@ -397,6 +397,11 @@ func probeHistory(rng *hlib.Rand, p *probeProc, probe *pkgData, idx int) *histOu
 		}
 		status := f[0]
 		hint := status
+		if status == stBadArg {
+			// no body of the probe returns "#bad argument" itself: if the model lets the body run it
+			// answers `body-ran:ok`, which differs from the implementation's answer
+			hint = "ok"
+		}
 		lastMagic = magicClass(f[1])
 		if m.Name == "vm" {
 			// exact prediction of the body by Model/ProbeVM.lean: buffers, pc, resume point
